@@ -354,12 +354,21 @@ fn bcf_roundtrip(tier: &str) -> Result<String, String> {
     for n in [1usize, 2, 13, 14, 15, 16, 17, 126, 127, 128, 129, 254, 255, 256, 257, 300] { let t = "x".repeat(n); lines.push(("string".into(), rec(".", &format!("S1={t}"), "XS", [&t, ".", "y"]))); }
     let mut rd = vcf::io::Reader::new(hdr.as_bytes());
     let header = rd.read_header().map_err(|e| format!("vcf header: {e:?}"))?;
+    // the same header with ARBITRARY IDX assignments (C10 quantifies over them): PASS keeps 0, every other INFO / FILTER / FORMAT id gets a
+    // dictionary index that is neither its position nor contiguous; the contig gets 3
+    let hdr_idx: String = { let mut k = 0usize; hdr.lines().map(|l| { let mut l = l.to_string();
+        if (l.starts_with("##INFO=<") || l.starts_with("##FILTER=<") || l.starts_with("##FORMAT=<")) && l.ends_with('>') { let idx = if l.contains("ID=PASS,") { 0 } else { k += 1; 1 + (k * 211) % 997 }; l.truncate(l.len() - 1); l.push_str(&format!(",IDX={idx}>")); }
+        else if l.starts_with("##contig=<") && l.ends_with('>') { l.truncate(l.len() - 1); l.push_str(",IDX=3>"); }
+        l.push('\n'); l }).collect() };
+    let header_idx = vcf::io::Reader::new(hdr_idx.as_bytes()).read_header().map_err(|e| format!("vcf header with IDX: {e:?}"))?;
     let render = |h: &vcf::Header, r: &vcf::variant::RecordBuf| -> Result<String, String> { let mut w = vcf::io::Writer::new(Vec::new()); w.write_variant_record(h, r).map_err(|e| format!("render: {e}"))?; Ok(String::from_utf8_lossy(w.get_ref()).to_string()) };
     let mut fails: BTreeMap<(String, String), String> = BTreeMap::new();
     let (mut cases, mut refused) = (0u64, 0u64);
     let mut per_kind: BTreeMap<String, (u64, u64)> = BTreeMap::new();   // kind -> (round-tripped, refused by the writer)
     std::panic::set_hook(Box::new(|_| {}));
-    for (kind, line) in &lines {
+    for (pass, header) in [(0usize, &header), (1, &header_idx)] { for (li, (kind, line)) in lines.iter().enumerate() {
+        if pass == 1 && li % 5 != 0 { continue; }
+        let kind = &(if pass == 1 { format!("{kind}; header with arbitrary IDX") } else { kind.clone() });
         let mut rd = vcf::io::Reader::new(line.as_bytes());
         let mut orig = vcf::variant::RecordBuf::default();
         match rd.read_record_buf(&header, &mut orig) { Ok(n) if n > 0 => {}, _ => continue }   // not a VCF record the text reader accepts
@@ -398,10 +407,11 @@ fn bcf_roundtrip(tier: &str) -> Result<String, String> {
         }));
         match r { Err(_) => note("PANICS".into()), Ok(Err(e)) => note(e), Ok(Ok(None)) => { refused += 1; *per_kind.entry(kind.clone()).or_insert((0u64, 0u64)) = { let e = per_kind.get(kind).copied().unwrap_or((0, 0)); (e.0, e.1 + 1) }; }, Ok(Ok(Some(_))) => { let e = per_kind.get(kind).copied().unwrap_or((0, 0)); per_kind.insert(kind.clone(), (e.0 + 1, e.1)); } }
     }
+    }
     let _ = std::panic::take_hook();
     // vacuity guard: every kind must have records that actually went through the writer and the reader
     // (only when nothing failed: a kind whose every record FAILS the round trip is a finding, not vacuity)
-    if fails.is_empty() { for (k, (okc, _)) in &per_kind { if *okc == 0 && k != "genotype-large-allele" { return Err(format!("UNDECIDED: no record of kind {k} was accepted by the writer — the harness would be vacuous")); } } }
+    if fails.is_empty() { for (k, (okc, _)) in &per_kind { if *okc == 0 && k != "genotype-large-allele" && !k.contains("arbitrary IDX") { return Err(format!("UNDECIDED: no record of kind {k} was accepted by the writer — the harness would be vacuous")); } } }
     if fails.is_empty() { Ok(format!("\"cases\":{cases},\"refused_by_writer\":{refused},\"round_tripped_per_kind\":{{{}}}", per_kind.iter().map(|(k, (a, b))| format!("\"{k}\":[{a},{b}]")).collect::<Vec<_>>().join(","))) }
     else { Err(format!("FAILURES\n{}", fails.values().cloned().collect::<Vec<_>>().join("\n"))) }
 }
